@@ -31,8 +31,14 @@ func checkC14(c *Check) {
 	renderedEventEmittedAsRendered(c, t)
 	// the record group is complete: every line of the stream is pushed to
 	// the reassembler (rules of C15)
+	importRules(c, "C03", checkC03, "identity-content-stable: ", "S7 login-event-read-only")
+	loginEventNotRetained(c)
 	ng := importRules(c, "C15", checkC15, "record-group-complete: ", "parse-or-stop", "push-parse-result")
-	c.Floor("imported record-group-complete obligations", 3, ng)
+	// ... and every record reaches the parser whole, whatever its length
+	// (an EXECVE record can carry several kilobytes of arguments): the pipe
+	// is read with an accumulating primitive (rules of C12)
+	ng += importRules(c, "C12", checkC12, "record-group-complete: ", "framing-primitive", "once-verbatim-in-order")
+	c.Floor("imported record-group-complete obligations", 8, ng)
 }
 
 // renderedEventEmittedAsRendered: what the renderer returns is what is
@@ -906,4 +912,94 @@ func storesIntoParam(p *Prog, fn *ssa.Function, root ssa.Value, depth int) strin
 		}
 	})
 	return found
+}
+
+
+// holdsType: a value of type tp can hold (store) a value of a type accepted
+// by match: directly, through pointers, slices, arrays, maps, the type
+// arguments of a generic container, or the fields of repository structs.
+// Channels, functions and interfaces are not storage.
+func holdsType(tp types.Type, match func(*types.Named) bool, depth int) bool {
+	if depth > 6 {
+		return false
+	}
+	switch u := tp.(type) {
+	case *types.Named:
+		if match(u) {
+			return true
+		}
+		if ta := u.TypeArgs(); ta != nil {
+			for i := 0; i < ta.Len(); i++ {
+				if holdsType(ta.At(i), match, depth+1) {
+					return true
+				}
+			}
+		}
+		if u.Obj().Pkg() == nil || !strings.HasPrefix(u.Obj().Pkg().Path(), ModPath) {
+			return false
+		}
+		if st, isStruct := u.Underlying().(*types.Struct); isStruct {
+			for i := 0; i < st.NumFields(); i++ {
+				if holdsType(st.Field(i).Type(), match, depth+1) {
+					return true
+				}
+			}
+			return false
+		}
+		return holdsType(u.Underlying(), match, depth+1)
+	case *types.Pointer:
+		return holdsType(u.Elem(), match, depth+1)
+	case *types.Slice:
+		return holdsType(u.Elem(), match, depth+1)
+	case *types.Array:
+		return holdsType(u.Elem(), match, depth+1)
+	case *types.Map:
+		return holdsType(u.Elem(), match, depth+1) || holdsType(u.Key(), match, depth+1)
+	}
+	return false
+}
+
+// loginEventNotRetained: the sshd side hands the login's event over and
+// keeps no reference to it. A field of the long-lived sshd processor (or a
+// package-level variable of its package) that can store events or logins
+// lets a later line reach, and alter, the object the correlator renders
+// every event of the session from.
+func loginEventNotRetained(c *Check) {
+	p := c.P
+	pk := p.RepoPkg(pkgSshd)
+	if !c.Anchor("package "+pkgSshd, pk != nil) {
+		return
+	}
+	match := func(n *types.Named) bool {
+		if n.Obj().Pkg() == nil {
+			return false
+		}
+		switch {
+		case n.Obj().Name() == "AuditEvent" && strings.HasSuffix(n.Obj().Pkg().Path(), "metal-toolbox/auditevent"):
+			return true
+		case n.Obj().Name() == "RemoteUserLogin" && strings.HasSuffix(n.Obj().Pkg().Path(), "/internal/common"):
+			return true
+		}
+		return false
+	}
+	nf := 0
+	scope := pk.Pkg.Scope()
+	for _, name := range scope.Names() {
+		switch o := scope.Lookup(name).(type) {
+		case *types.TypeName:
+			st, ok := o.Type().Underlying().(*types.Struct)
+			if !ok {
+				continue
+			}
+			for i := 0; i < st.NumFields(); i++ {
+				nf++
+				f := st.Field(i)
+				c.Cond(!holdsType(f.Type(), match, 0), "login-event-not-retained", "field "+name+"."+f.Name(), p.Pos(f.Pos()), "cannot store an event or a login", "a field of a type of the sshd processor can keep events or logins ("+typeName(f.Type())+"): the event handed over with a login stays reachable from the sshd side, and a later line that alters it changes the identity content of the session's events")
+			}
+		case *types.Var:
+			nf++
+			c.Cond(!holdsType(o.Type(), match, 0), "login-event-not-retained", "package-level variable "+name, p.Pos(o.Pos()), "cannot store an event or a login", "a package-level variable of the sshd processor can keep events or logins ("+typeName(o.Type())+")")
+		}
+	}
+	c.Floor("fields and variables of the sshd package examined", 10, nf)
 }
